@@ -663,7 +663,7 @@ def _fresh_reads_defaults(slide, m, av, where):
     return None
 
 
-def _deck_with_guides(m, av):
+def _deck_with_guides(m, av, form="full"):
     """Bytes of a deck whose only slide holds len(av) shapes of type m; shape k carries explicit a:gd guides for
     all adjustments, the k-th one non-default. The guides are written by this harness (bare lxml + own zip writer)."""
     from mc.drivers.fixtures import write_zip, zip_members
@@ -683,7 +683,12 @@ def _deck_with_guides(m, av):
         avl = geom.find("{%s}avLst" % NS_A)
         if avl is None:
             avl = etree.SubElement(geom, "{%s}avLst" % NS_A)
-        for j, (gname, val) in enumerate(av):
+        listed = list(enumerate(av))
+        if form == "reversed":      # a guide is identified by its NAME; the order of a:gd in a:avLst is free
+            listed.reverse()
+        elif form == "partial":     # only the adjusted guide is stored; the others keep the definition's default
+            listed = [(j, x) for j, x in listed if j == k]
+        for j, (gname, val) in listed:
             gd = etree.SubElement(avl, "{%s}gd" % NS_A)
             gd.set("name", gname)
             gd.set("fmla", "val %d" % (val + NONDEFAULT_DELTA if j == k else val))
@@ -713,18 +718,26 @@ def case_history_set(name, i, part=None):
     return []
 
 
-def case_history_loaded(name, i, part=None, deck=None):
+def case_history_loaded(name, i, part=None, deck=None, form="full"):
     """Shape i of a loaded deck carries explicit guides (index i non-default); fresh shapes added after its
     .adjustments were read still read the defaults."""
     from pptx import Presentation
     m, av = _table_row(name)
     q = "MSO_AUTO_SHAPE_TYPE.%s" % name
-    blob = deck if deck is not None else _deck_with_guides(m, av)
+    blob = deck if deck is not None else _deck_with_guides(m, av, form)
     prs = Presentation(io.BytesIO(blob))
     slide = prs.slides[0]
     loaded = list(slide.shapes)[i]
     got = [loaded.adjustments[k] for k in range(len(loaded.adjustments))]
     took = len(got) > i and got[i] == (av[i][1] + NONDEFAULT_DELTA) / 100000.0
+    if form != "full":
+        # the guide named like the i-th adjustment of the definition IS that adjustment, wherever it stands in a:avLst
+        want = [(v + (NONDEFAULT_DELTA if j == i else 0)) / 100000.0 for j, (_, v) in enumerate(av)]
+        if got != want:
+            return [("C20|adj-stored-guides|%s|form=%s" % (q, form),
+                     "a loaded %s whose a:avLst is %s (guide %s = %d) reads adjustments %r, by name %r"
+                     % (q, "in reverse order" if form == "reversed" else "partial: only the adjusted guide",
+                        av[i][0], av[i][1] + NONDEFAULT_DELTA, got, want))]
     if part is not None:
         part.outcome("history.first-shape-shows-nondefault", "loaded:%s" % took)
         if took:
@@ -756,13 +769,20 @@ def run_histories(part, names, emit=True):
         if not av:
             continue
         deck = None
-        for kind in ("set", "loaded"):
+        decks = {}
+        kinds = ("set", "loaded") + (("loaded-reversed", "loaded-partial") if len(av) >= 2 else ())
+        for kind in kinds:
             for i in range(len(av)):
                 part.count("evaluations")
                 part.count("adjustment_history_cases")
                 try:
                     if kind == "set":
                         fails = case_history_set(name, i, part)
+                    elif kind != "loaded":
+                        form = kind.split("-")[1]
+                        if form not in decks:
+                            decks[form] = _deck_with_guides(m, av, form)
+                        fails = case_history_loaded(name, i, part, decks[form], form)
                     else:
                         if deck is None:
                             deck = _deck_with_guides(m, av)
@@ -1002,7 +1022,7 @@ def run(ctx):
         fails = case_history_sweep(name)
         if name not in failed:   # a type that failed its own history is already reported (and stays polluted)
             _emit(ctx, fails, {"kind": "history", "first": "other-types", "member": name, "index": -1})
-    n_hist = sum(2 * len(_table_row(n)[1]) for n in shapes)
+    n_hist = sum((4 if len(_table_row(n)[1]) >= 2 else 2) * len(_table_row(n)[1]) for n in shapes)
     shown = ctx.outcomes.get("history.first-shape-shows-nondefault", set())
     if not {"set:True", "loaded:True"} <= shown:
         raise HarnessError("history family vacuous: first shapes never showed the non-default value (%s)" % sorted(shown))
@@ -1101,6 +1121,8 @@ def replay(data):
             fails = case_history_set(data["member"], data["index"])
         elif data["first"] == "loaded":
             fails = case_history_loaded(data["member"], data["index"])
+        elif data["first"].startswith("loaded-"):
+            fails = case_history_loaded(data["member"], data["index"], form=data["first"].split("-")[1])
         else:
             # a leak across types needs the whole family as its history
             from pptx.enum.shapes import MSO_AUTO_SHAPE_TYPE
